@@ -22,11 +22,13 @@ LOOPS_TIE = ("TRANSLATED tie of the inner loops: tools/extract_schedule.py turns
              "edits tried, all break or leave the translatable fragment, which counts as a broken tie). The recursive passes around the loops are "
              "hand-modelled. ")
 
-PASS_TIE = ("TRANSLATED tie of the recursive forward pass: tools/extract_pass.py turns ForwardScheduler.__forward_pass into a PyLite term on every "
-            "run; *_source_forward_pass proves that interpreting it on an object store (task attributes as mutable slots, the calculated list, the "
-            "resource table with setdefault, the scripted clock, the ledger, recursion) is the model's fwdPass - unless the model run ends in "
-            "RecursionError, which C14 excludes for real inputs (29 semantic edits tried: all break a lemma or leave the fragment). "
-            "Not translated: calc() around the pass (validation, clone, prepare, the loop over the roots), property setters of Task. ")
+PASS_TIE = ("TRANSLATED tie of the recursive passes: tools/extract_pass.py turns ForwardScheduler.__forward_pass, BackwardScheduler.__backward_pass "
+            "and both __prepare_tasks into PyLite terms on every run; *_source_forward_pass / *_source_backward_pass prove that interpreting them on "
+            "an object store (task attributes as mutable slots, the calculated list, the resource table with setdefault, the scripted clock, the "
+            "ledger, recursion) is the model's fwdPass / bwdPass - unless the model run ends in RecursionError, which C14 excludes for real inputs "
+            "- and C07_source_prepare that the prepare methods are the model's prepare (82 semantic edits tried in all: each breaks a lemma, a "
+            "kernel-evaluated example or leaves the fragment). Not translated: calc() around the passes (validation, clone, the loop over the "
+            "roots), property setters of Task. ")
 
 SCHED_TIE = ("The model (lean/PjVerif/Model/Sched.lean, Clone.lean) mirrors schedule.py statement by statement and is tied to the code by a "
              "correspondence stream (random WBSs with links on leaves and summaries, outside predecessors, milestones, fixed dates, 0-3 resources "
@@ -110,7 +112,7 @@ CLAIMED = {
               "booked before it was placed); C09_partial - every dependency between member tasks, declared or inherited, has predecessor end <= "
               "successor start, and with balancing on the schedule is late-packed, when no task that has children carries a link (finding "
               "KF-S2-C09, kernel-checked counterexample C09_full_fails replayed on every run) and outside link partners are leaves. "
-              + LOOPS_TIE + SCHED_TIE),
+              + PASS_TIE + LOOPS_TIE + SCHED_TIE),
         design='6 (C09)', technique='Lean 4 proof (backward pass invariant) of partial statements + counterexample + differential correspondence'),
     'C12': dict(
         text=("Theorems for every input of the critical-path model (leaf-level reading of the repaired activity-on-arc network): C12_exact - "
